@@ -106,15 +106,76 @@ def one(ctx, pts, cfg, family):
         ctx.corr_checked += 1
         if mo != o:
             ctx.fail('correspondence', 'mapping (stage 6)', site, case, dict(impl=o, model=mo))
+    # ---- the WHOLE pipeline in one model run (threshold RDP, rank modes), every oracle asked lazily in its own space
+    if cfg['simplifier'] == 'rdp' and cfg['mode'] != 'hull' and m <= 120 and n <= 400:
+        whole_pipeline(ctx, pts, cfg, stages, red, site, case, t2)
     ctx.count(family + ':' + cfg['simplifier'] + ':' + cfg['detector'] + ':' + cfg['mode'], n=n,
               nontrivial_key=(str(sorted(cfg.items(), key=str)), pts.tobytes()) if len(c) >= 2 else None,
               sample=dict(config=cfg, n=n, reduced_points=m, **{kk: vv[:10] for kk, vv in stages.items()}))
 
 
+def whole_pipeline(ctx, pts, cfg, stages, red, site, case, t2):
+    import kneeliverse.knee_ranking as kr
+    sc = cfg['scfg']
+    orc1 = rdpfam.Oracles(pts, sc.get('dist', 'shortest'), sc.get('cost', 'smape'), 'segment')
+    state = {}
+    tie = {'v': False}
+
+    def answer(name, args):
+        if name in ('cst', 'dst'):
+            return orc1.answer(name, args)
+        if name == 'reduced':
+            state['red'] = core.parse_nats(args[0])
+            state['pr'] = pts[state['red']]
+            state['orc2'] = detfam.DetOracles(state['pr'])
+            return '0'
+        pr = state['pr']
+        if name == 'hts':
+            return core.rats(pr[:, 1])
+        if name == 'ious':
+            ks = core.parse_nats(args[0])
+            return core.rats([c13.iou_of(pr, q) if 1 <= q and q + 1 < len(pr) else 0.0 for q in ks])
+        if name == 'labels':
+            ks = core.parse_nats(args[0])
+            return core.nats(np.asarray(c12.link_fn(cfg['linkage'])(pr[np.array(ks, dtype=int)], cfg['tl'])).tolist())
+        if name == 'scores':
+            g = core.parse_nats(args[0])
+            v = [float(u) for u in kr.smooth_ranking(pr, np.array(g, dtype=int), getattr(kr.ClusterRanking, cfg['mode']))]
+            if len(set(v)) < len(v) or any(not math.isfinite(u) for u in v):
+                tie['v'] = True
+                v = [0.0 if not math.isfinite(u) else u for u in v]
+            return core.rats(v)
+        return state['orc2'].answer(name, args)
+    try:
+        out = ctx.get_driver().call('pipeline_full', ['1' if sc.get('cost') == 'r2' else '0', core.rat(sc['t']), str(len(pts)), cfg['detector'],
+                                                        core.rat(cfg['t1']), str(t2), core.rat(cfg['tc'])], answer)
+    except core.NonFinite:
+        ctx.tag('whole-pipeline-oracle-nonfinite')
+        return
+    if orc1.nonfinite or (state.get('orc2') and state['orc2'].nonfinite):
+        ctx.tag('whole-pipeline-oracle-nonfinite')
+        return
+    if tie['v']:
+        ctx.tag('whole-pipeline-tie(relational)')
+        return
+    ctx.corr_checked += 1
+    if out == ['none']:
+        ctx.fail('correspondence', 'pipelineFull returned none', site, case, stages)
+        return
+    got = [core.parse_nats(tok) for tok in out]
+    want = [red, stages['knees'], stages['worst'], stages['corner'], stages['cluster'], stages['mapped']]
+    if got != want:
+        names = ['reduced', 'knees', 'worst', 'corner', 'cluster', 'mapped']
+        bad = next(nm for nm, a, b in zip(names, got, want) if a != b)
+        ctx.fail('correspondence', f'pipelineFull (whole pipeline in one model run): first difference at stage {bad}', site, case, dict(model=dict(zip(names, got)), impl=dict(zip(names, want))))
+    else:
+        ctx.tag('whole-pipeline-agrees')
+
+
 def rand_cfg(ctx, pts):
     rng = ctx.rng
     n = len(pts)
-    s = rng.choice(SIMPL)
+    s = rng.choice(SIMPL + ['rdp', 'rdp'])
     scfg = dict(dist=rng.choice(rdpfam.DISTS), cost=rng.choice(rdpfam.COSTS), order=rng.choice(rdpfam.ORDERS))
     if s in ('rdp', 'grdp', 'mp_grdp'):
         scfg['t'] = rng.choice([0.001, 0.01, 0.05]) if scfg['cost'] != 'r2' else rng.choice([0.9, 0.99, 0.999])
